@@ -46,12 +46,16 @@ pub struct Config {
     /// capture a backtrace whenever a task blocks or panics (slow; replay only)
     pub capture_backtraces: bool,
     pub stack_size: usize,
+    /// run every task on an OS thread of its own (one at a time, handed a baton by the scheduler loop) instead of on a
+    /// coroutine: slower, and unfinished tasks are leaked as parked threads, so only for one-shot replays in a throw-away
+    /// process. What it buys: `thread_local!` state and anything else tied to the OS thread behaves as it does for real threads.
+    pub os_threads: bool,
     pub verbose: bool,
 }
 
 impl Default for Config {
     fn default() -> Config {
-        Config { max_steps: 50_000, unlock_points: false, spurious_at: vec![], capture_backtraces: false, stack_size: 256 * 1024, verbose: false }
+        Config { max_steps: 50_000, unlock_points: false, spurious_at: vec![], capture_backtraces: false, stack_size: 256 * 1024, os_threads: false, verbose: false }
     }
 }
 
@@ -112,10 +116,54 @@ pub struct RunResult {
 
 type Coro = Coroutine<(), (), (), DefaultStack>;
 
+/// Hand-over between the scheduler loop and a task that runs on its own OS thread
+struct Baton {
+    m: std::sync::Mutex<(bool, bool)>, // (the task's turn, the task has finished)
+    cv: std::sync::Condvar,
+}
+
+impl Baton {
+    /// scheduler loop: let the task run until it gives the baton back; true if it has finished
+    fn run_task(&self) -> bool {
+        let mut st = self.m.lock().unwrap();
+        st.0 = true;
+        self.cv.notify_all();
+        while st.0 {
+            st = self.cv.wait(st).unwrap();
+        }
+        st.1
+    }
+    /// task: give the baton back and wait for the next turn
+    fn yield_to_scheduler(&self) {
+        let mut st = self.m.lock().unwrap();
+        st.0 = false;
+        self.cv.notify_all();
+        while !st.0 {
+            st = self.cv.wait(st).unwrap();
+        }
+    }
+    fn wait_first_turn(&self) {
+        let mut st = self.m.lock().unwrap();
+        while !st.0 {
+            st = self.cv.wait(st).unwrap();
+        }
+    }
+    fn finish(&self) {
+        let mut st = self.m.lock().unwrap();
+        st.0 = false;
+        st.1 = true;
+        self.cv.notify_all();
+    }
+}
+
+struct SendPtr<T>(T);
+unsafe impl<T> Send for SendPtr<T> {}
+
 struct Task {
     name: String,
     state: TaskState,
     coro: Option<Coro>,
+    baton: Option<std::sync::Arc<Baton>>,
     yielder: *const Yielder<(), ()>,
     park_token: bool,
     panicking: bool,
@@ -254,6 +302,9 @@ fn give_stack(stack: DefaultStack) {
 
 /// Creates a task; returns its id. The closure must not unwind.
 pub(crate) fn spawn_task(name: String, f: Box<dyn FnOnce() + 'static>) -> TaskId {
+    if with_exec(|e| e.cfg.os_threads) {
+        return spawn_task_os(name, f);
+    }
     let size = with_exec(|e| e.cfg.stack_size);
     let stack = take_stack(size);
     let tid = with_exec(|e| e.tasks.len());
@@ -283,6 +334,7 @@ pub(crate) fn spawn_task(name: String, f: Box<dyn FnOnce() + 'static>) -> TaskId
             name: name.clone(),
             state: TaskState::Runnable,
             coro: Some(coro),
+            baton: None,
             yielder: ptr::null(),
             park_token: false,
             panicking: false,
@@ -295,6 +347,70 @@ pub(crate) fn spawn_task(name: String, f: Box<dyn FnOnce() + 'static>) -> TaskId
         e.local_steps.push(0);
     });
     // spawn hook (harness oracle, e.g. pool size)
+    let hook = with_exec(|e| e.spawn_hook.take());
+    if let Some(mut hook) = hook {
+        let live = with_exec(|e| e.tasks.iter().filter(|t| t.name == name && t.state != TaskState::Finished).count());
+        hook(&name, live);
+        with_exec(|e| {
+            if e.spawn_hook.is_none() {
+                e.spawn_hook = Some(hook)
+            }
+        });
+    }
+    tid
+}
+
+/// `spawn_task` for `Config::os_threads`: the task gets an OS thread of its own, which only ever runs while it holds the baton
+fn spawn_task_os(name: String, f: Box<dyn FnOnce() + 'static>) -> TaskId {
+    let tid = with_exec(|e| e.tasks.len());
+    let baton = std::sync::Arc::new(Baton { m: std::sync::Mutex::new((false, false)), cv: std::sync::Condvar::new() });
+    let b2 = baton.clone();
+    let exec = SendPtr(exec_ptr() as usize);
+    let f = SendPtr(ManuallyDrop::new(f));
+    let stack = with_exec(|e| e.cfg.stack_size).max(2 * 1024 * 1024);
+    std::thread::Builder::new()
+        .name(format!("vsched task {}", tid))
+        .stack_size(stack)
+        .spawn(move || {
+            let exec = exec;
+            let f = f;
+            EXEC.with(|c| c.set(exec.0 as *mut Exec));
+            b2.wait_first_turn();
+            let f = ManuallyDrop::into_inner(f.0);
+            let r = panic::catch_unwind(AssertUnwindSafe(f));
+            if r.is_err() {
+                with_exec(|e| e.tasks[tid].panicking = false);
+            }
+            sched_point();
+            with_exec(|e| {
+                e.tasks[tid].state = TaskState::Finished;
+                e.tasks[tid].panicking = false;
+                for t in e.tasks.iter_mut() {
+                    if t.state == TaskState::Blocked(BlockKind::Join, tid) {
+                        t.state = TaskState::Runnable;
+                    }
+                }
+            });
+            b2.finish();
+        })
+        .expect("vsched: cannot create an OS thread for a task");
+    with_exec(|e| {
+        e.tasks.push(Task {
+            name: name.clone(),
+            state: TaskState::Runnable,
+            coro: None,
+            baton: Some(baton),
+            yielder: ptr::null(),
+            park_token: false,
+            panicking: false,
+            panic_msg: None,
+            blocking_calls: 0,
+            blocked_bt: None,
+            no_preempt: false,
+            blocks: 0,
+        });
+        e.local_steps.push(0);
+    });
     let hook = with_exec(|e| e.spawn_hook.take());
     if let Some(mut hook) = hook {
         let live = with_exec(|e| e.tasks.iter().filter(|t| t.name == name && t.state != TaskState::Finished).count());
@@ -396,6 +512,13 @@ pub fn run(cfg: Config, chooser: Box<dyn Chooser>, root: Box<dyn FnOnce() + 'sta
         e.steps += 1;
         e.local_steps[tid] += 1;
         e.current = tid;
+        if let Some(baton) = e.tasks[tid].baton.clone() {
+            e.in_task = true;
+            baton.run_task();
+            let e = unsafe { &mut *p };
+            e.in_task = false;
+            continue;
+        }
         let mut coro = e.tasks[tid].coro.take().expect("runnable task has a coroutine");
         e.in_task = true;
         let r = coro.resume(());
@@ -445,6 +568,10 @@ pub fn run(cfg: Config, chooser: Box<dyn Chooser>, root: Box<dyn FnOnce() + 'sta
 }
 
 fn switch_out() {
+    if let Some(baton) = with_exec(|e| e.tasks[e.current].baton.clone()) {
+        baton.yield_to_scheduler();
+        return;
+    }
     let y = with_exec(|e| e.tasks[e.current].yielder);
     debug_assert!(!y.is_null());
     unsafe { (*y).suspend(()) };
